@@ -215,10 +215,11 @@ CHECKS = {
         category='proof',
         text='Slice: fix_dwarf_formsdata lowered per run from /repo/libzwerg/atval.cc. Contract: for DW_FORM_data1/2/4 the value '
              'given to the signed path is the sign extension of the N stored bytes whichever way libdw extended them, other forms '
-             'pass libdw\'s value through, a libdw error is passed on and nothing is written; all 2^64 values, all form codes.',
+             'pass libdw\'s value through, a libdw error is passed on and nothing is written; all 2^64 values, all form codes. Plus the operand '
+             'decoding of location-expression operations (locexpr_op_values, all 256 opcodes, see C17).',
         design_ref='DESIGN.md section 4 C07',
-        note='SLICE ONLY (one function). dwarf_formsdata is an assumed contract (props/c07/libdw_model.h). Form dispatch, '
-             'type-encoding lookup, location expressions, strings, references: not covered.',
+        note='SLICE ONLY (two functions). dwarf_formsdata is an assumed contract (props/c07/libdw_model.h). Form dispatch, '
+             'type-encoding lookup, location-list iteration, strings, references: not covered.',
         technique='CBMC code contracts on C lowered from the real C++ per run',
     ),
 }
